@@ -95,6 +95,7 @@ func (clnt *Clnt) Rpcnb(r *Req) error {
 	clnt.Lock()
 	if clnt.err != nil {
 		err := clnt.err
+		verifPoint("rpcnb.refused", clnt, uint32(tag), 0)
 		clnt.Unlock()
 		return err
 	}
@@ -107,14 +108,17 @@ func (clnt *Clnt) Rpcnb(r *Req) error {
 
 	r.prev = clnt.reqlast
 	clnt.reqlast = r
+	verifPoint("rpcnb.locked", clnt, uint32(tag), 0)
 	clnt.Unlock()
 	verifPoint("rpcnb.linked", clnt, uint32(tag), 0)
 
 	select {
 	case clnt.reqout <- r:
+		verifPoint("rpcnb.handed", clnt, uint32(tag), 1)
 	case <-clnt.done:
 		/* the connection failed after r was linked: the send goroutine is gone,
 		   and recv reports the error on r.Done like for every pending request */
+		verifPoint("rpcnb.handed", clnt, uint32(tag), 0)
 	}
 	return nil
 }
@@ -130,6 +134,7 @@ func (clnt *Clnt) Rpc(tc *Fcall) (rc *Fcall, err error) {
 	}
 
 	<-r.Done
+	verifPoint("rpc.taken", clnt, uint32(r.tag), 0)
 	rc = r.Rc
 	err = r.Err
 	clnt.ReqFree(r)
@@ -156,6 +161,7 @@ func (clnt *Clnt) recv() {
 			err = &Error{oerr.Error(), EIO}
 			clnt.Lock()
 			clnt.err = err
+			verifPoint("clntrecv.failed", clnt, 0, 0)
 			clnt.Unlock()
 			goto closed
 		}
@@ -168,6 +174,7 @@ func (clnt *Clnt) recv() {
 				clnt.Lock()
 				clnt.err = &Error{"message too large", EINVAL}
 				_ = clnt.conn.Close()
+				verifPoint("clntrecv.failed", clnt, 0, 0)
 				clnt.Unlock()
 				goto closed
 			}
@@ -186,6 +193,7 @@ func (clnt *Clnt) recv() {
 			if err != nil {
 				clnt.err = err
 				_ = clnt.conn.Close()
+				verifPoint("clntrecv.failed", clnt, 0, 0)
 				clnt.Unlock()
 				goto closed
 			}
@@ -211,6 +219,7 @@ func (clnt *Clnt) recv() {
 			if r == nil {
 				clnt.err = &Error{"unexpected response", EINVAL}
 				_ = clnt.conn.Close()
+				verifPoint("clntrecv.matched", clnt, uint32(fc.Tag), 0)
 				clnt.Unlock()
 				goto closed
 			}
@@ -227,6 +236,7 @@ func (clnt *Clnt) recv() {
 			} else {
 				clnt.reqlast = r.prev
 			}
+			verifPoint("clntrecv.matched", clnt, uint32(fc.Tag), verifRkind(r.Tc.Type, fc.Type))
 			clnt.Unlock()
 
 			if r.Tc.Type != r.Rc.Type-1 {
@@ -241,6 +251,7 @@ func (clnt *Clnt) recv() {
 
 			if r.Done != nil {
 				r.Done <- r
+				verifPoint("clntrecv.delivered", clnt, uint32(fc.Tag), 0)
 			}
 
 			pos -= fcsize
@@ -251,6 +262,7 @@ func (clnt *Clnt) recv() {
 closed:
 	/* stops the send goroutine and releases callers waiting to hand over a request */
 	close(clnt.done)
+	verifPoint("clntrecv.doneclosed", clnt, 0, 0)
 
 	/* send error to all pending requests */
 	clnt.Lock()
@@ -260,6 +272,7 @@ closed:
 	if err == nil {
 		err = clnt.err
 	}
+	verifPoint("clntrecv.detached", clnt, 0, 0)
 	clnt.Unlock()
 	for r != nil {
 		/* once r is handed to its caller it may be recycled (ReqFree clears r.next) */
@@ -267,9 +280,11 @@ closed:
 		r.Err = err
 		if r.Done != nil {
 			r.Done <- r
+			verifPoint("clntrecv.delivered", clnt, 0, 1)
 		}
 		r = next
 	}
+	verifPoint("clntrecv.end", clnt, 0, 0)
 
 	clnts.Lock()
 	if clnt.prev != nil {
@@ -437,11 +452,12 @@ func (clnt *Clnt) ReqAlloc() *Req {
 	var req *Req
 	select {
 	case req = <-clnt.reqchan:
-		break
+		verifPoint("clnt.reqalloc", clnt, uint32(req.tag), 1)
 	default:
 		req = new(Req)
 		req.Clnt = clnt
 		req.tag = uint16(clnt.tagpool.Get())
+		verifPoint("clnt.reqalloc", clnt, uint32(req.tag), 0)
 	}
 	return req
 }
@@ -457,9 +473,10 @@ func (clnt *Clnt) ReqFree(req *Req) {
 
 	select {
 	case clnt.reqchan <- req:
-		break
+		verifPoint("clnt.reqfree", clnt, uint32(req.tag), 1)
 	default:
 		clnt.tagpool.Put(uint32(req.tag))
+		verifPoint("clnt.reqfree", clnt, uint32(req.tag), 0)
 	}
 }
 
